@@ -17,14 +17,14 @@ CLAIMED = {
 
  "C18": dict(
    level="exploration",
-   text="One block with n ordered zero-fee payments of which a chosen subset pays the light client's key: every (n, pattern) for n = 0..6/8 enumerated first, then random n <= 24/40 with 0-2 extra listed keys. The lite block is produced by the same core calls as the fetch route and checked before and after the wire: id, hash, signature and every header field equal the full block's; every transaction touching a listed key is carried unmodified; hash unchanged by the wire; merkle root recomputable from the lite block's own transactions. In a fraction of the runs a real SPV node performs handshake, ghost-chain request and lite-block fetch against a real full node and must end up storing the block under the advertised hash. Later additions: projection of a copy of the block with every signed header field non-zero; after-wire comparison of the kept transactions' outputs including ledger coordinates. Rounds 5-6: projection of the block after its transactions were pruned from memory keeps the signed header and the hash.",
+   text="One block with n ordered zero-fee payments of which a chosen subset pays the light client's key: every (n, pattern) for n = 0..6/8 enumerated first, then random n <= 24/40 with 0-2 extra listed keys. The lite block is produced by the same core calls as the fetch route and checked before and after the wire: id, hash, signature and every header field equal the full block's; every transaction touching a listed key is carried unmodified; hash unchanged by the wire; merkle root recomputable from the lite block's own transactions. In a fraction of the runs a real SPV node performs handshake, ghost-chain request and lite-block fetch against a real full node and must end up storing the block under the advertised hash. Later additions: projection of a copy of the block with every signed header field non-zero; after-wire comparison of the kept transactions' outputs including ledger coordinates. Rounds 5-6: projection of the block after its transactions were pruned from memory keeps the signed header and the hash. Round 7: a listed key that only sends (sweeps).",
    design="§6 C18",
    note="Reduced scope (DESIGN §7): the quantifier over blocks/key lists is enumerated only for the small space and sampled beyond. Fetch route is a stub re-using the core calls of saito-rust's warp route.",
    technique="deterministic simulation: full node + SPV node over a simulated lite-block fetch route, projection monitor; enumerated touch patterns"),
 
  "C19": dict(
    level="exploration",
-   text="Producer chain (genesis period 4..8 or 100) feeding a wallet node (real Blockchain + Wallet): 5..40/150 seeded events (payments to the wallet key, transactions built through Transaction::create / create_with_multiple_payments with random, total, excessive and zero amounts, confirmation, delay, dropping, a competing fork that un-confirms, window expiry with rebroadcast). After every event: balance == sum of unspent slips, every unspent key in the slip table; until the first reorganisation the unspent set equals the reference ledger's in-window outputs of the key minus inputs committed to pending wallet transactions; every wallet-built transaction has distinct inputs, outputs <= inputs (u128) and validates against the ledger it was built on. Later additions: an ordinary transaction with txs_replacements != 1 accompanies a third of the payments to the wallet. Rounds 5-6: reorganisations of depth 1..prune depth+2 with prune depth 1/2/3/8; staking family at the wallet's interface (stakes assembled from stake outputs topped up with ordinary ones).",
+   text="Producer chain (genesis period 4..8 or 100) feeding a wallet node (real Blockchain + Wallet): 5..40/150 seeded events (payments to the wallet key, transactions built through Transaction::create / create_with_multiple_payments with random, total, excessive and zero amounts, confirmation, delay, dropping, a competing fork that un-confirms, window expiry with rebroadcast). After every event: balance == sum of unspent slips, every unspent key in the slip table; until the first reorganisation the unspent set equals the reference ledger's in-window outputs of the key minus inputs committed to pending wallet transactions; every wallet-built transaction has distinct inputs, outputs <= inputs (u128) and validates against the ledger it was built on. Later additions: an ordinary transaction with txs_replacements != 1 accompanies a third of the payments to the wallet. Rounds 5-6: reorganisations of depth 1..prune depth+2 with prune depth 1/2/3/8; staking family at the wallet's interface (stakes assembled from stake outputs topped up with ordinary ones). Round 7: restore of a fresh wallet from the node's balance snapshot at the end of every run; stakes never select outputs below their validity bound.",
    design="§6 C19",
    note="Trusted: reference ledger of the producer chain. NFTs are not generated; staking only in the wallet-interface family.",
    technique="deterministic simulation: seeded payment/spend/confirm/drop/reorg/expiry histories through a real node + wallet-vs-ledger model"),
@@ -52,7 +52,7 @@ CLAIMED = {
 
  "C12": dict(
    level="fault_enumeration",
-   text="Histories (producer chain over genesis period 3..6 with rebroadcast, pruning and purge, optional side fork) delivered to a real full node whose simulated disk journals every write/remove; every journal prefix x tear class {absent, empty, header cut, half, all-but-last-byte, complete} of the next operation is a crash image on which a brand-new node runs the real start-up (Wallet::load, ConsensusThread::on_init, delete_old_blocks on/off). Oracle: no panic; restarted tip was given to the node before the crash point; in-window spendable value equals the reference ledger at that tip; conservation equation; clean shutdown restarts at the same tip; the node adopts the next three blocks. Later additions: second crash during the start-up's own storage operations; clean restart after recovery + three blocks; histories in which the main chain wins by a reorganisation through a block received while it was the shorter branch. Rounds 5-6: for the clean image of fork histories: restart, the stored side branch overtakes the main chain, restart again.",
+   text="Histories (producer chain over genesis period 3..6 with rebroadcast, pruning and purge, optional side fork) delivered to a real full node whose simulated disk journals every write/remove; every journal prefix x tear class {absent, empty, header cut, half, all-but-last-byte, complete} of the next operation is a crash image on which a brand-new node runs the real start-up (Wallet::load, ConsensusThread::on_init, delete_old_blocks on/off). Oracle: no panic; restarted tip was given to the node before the crash point; in-window spendable value equals the reference ledger at that tip; conservation equation; clean shutdown restarts at the same tip; the node adopts the next three blocks. Later additions: second crash during the start-up's own storage operations; clean restart after recovery + three blocks; histories in which the main chain wins by a reorganisation through a block received while it was the shorter branch. Rounds 5-6: for the clean image of fork histories: restart, the stored side branch overtakes the main chain, restart again. Round 7: a late competing block at the purge horizon; histories with blocks 6-9 s apart (steep burn-fee decay).",
    design="§6 C12",
    note="Trusted: journal/tear model (process death; write_value = truncate+write without fsync/rename as in RustIOHandler), reference ledgers of the producer. Quick tier enumerates the images of 100 histories (12 chunks of 24 images each); thorough 5000 histories.",
    technique="deterministic simulation: storage-journal crash-point x torn-write enumeration with real restart path and ledger/supply/liveness oracle"),
@@ -73,7 +73,7 @@ CLAIMED = {
 
  "C16": dict(
    level="exploration",
-   text="One real node (routing/verification/consensus) with 2-3 scripted peers authenticated through the real handshake; 5..60/200 seeded operations (announce by any peer in any height order incl. the same block by several peers and unknown hashes, timer rounds, fetch completions with the right / undecodable / wrong block, fetch failures, disconnects), everything driven through the routing layer. Oracle at the I/O boundary after every operation: in-flight per peer <= batch size, no (peer, hash) in flight twice, no never-requested lower height skipped, every announced real block requested or present after faults stop, at most 501 requests per peer for a block that always fails. Later additions: fetch request from the consensus processor plus the peer's announcement within one round; in-flight = pending minus the new requests. Rounds 5-6: the consensus processor's request for a missing parent without any announcement (only the timer round can serve it).",
+   text="One real node (routing/verification/consensus) with 2-3 scripted peers authenticated through the real handshake; 5..60/200 seeded operations (announce by any peer in any height order incl. the same block by several peers and unknown hashes, timer rounds, fetch completions with the right / undecodable / wrong block, fetch failures, disconnects), everything driven through the routing layer. Oracle at the I/O boundary after every operation: in-flight per peer <= batch size, no (peer, hash) in flight twice, no never-requested lower height skipped, every announced real block requested or present after faults stop, at most 501 requests per peer for a block that always fails. Later additions: fetch request from the consensus processor plus the peer's announcement within one round; in-flight = pending minus the new requests. Rounds 5-6: the consensus processor's request for a missing parent without any announcement (only the timer round can serve it). Round 7: a third of the runs with initial_loading_completed and children served before their parents.",
    design="§6 C16",
    note="Trusted: scripted peers and the definition of in-flight (requested via InterfaceIO, not yet completed by the simulated controller). Fetches of children whose parent is unknown are failed by the scripted server so that the orphan known finding does not interfere.",
    technique="deterministic simulation: seeded announce/complete/fail/timer sequences through the routing layer + in-flight reference model at the I/O boundary"),
@@ -87,42 +87,42 @@ CLAIMED = {
 
  "C15": dict(
    level="exploration",
-   text="Two real full nodes (routing, verification, consensus processors) on SimNet with a fetch server over the peer's simulated disk: real handshake, BlockchainRequest, header-hash stream, fetches, verification, add. Seeded chain pairs (shared prefix 0..35/120 covering zero to several fork-id checkpoints, syncer suffix 0..8/30, peer suffix longer) x fetch batch size x seeded scheduling of every pending item x faults (duplicates, failed fetches, forced disconnect + reconnect, FIFO or any-order fetch completion). Oracle: peer announces every block after the true fork point; after faults stop the syncer reaches the peer's tip within 80 timer rounds; no processor panics. Later additions: syncer configured with initial_loading_completed = true (park-and-retry) in a third of the runs; never-announced blocks judged before the orphan classification; long-chain family (peer chain longer than its block ring, empty syncer).",
+   text="Two real full nodes (routing, verification, consensus processors) on SimNet with a fetch server over the peer's simulated disk: real handshake, BlockchainRequest, header-hash stream, fetches, verification, add. Seeded chain pairs (shared prefix 0..35/120 covering zero to several fork-id checkpoints, syncer suffix 0..8/30, peer suffix longer) x fetch batch size x seeded scheduling of every pending item x faults (duplicates, failed fetches, forced disconnect + reconnect, FIFO or any-order fetch completion). Oracle: peer announces every block after the true fork point; after faults stop the syncer reaches the peer's tip within 80 timer rounds; no processor panics. Later additions: syncer configured with initial_loading_completed = true (park-and-retry) in a third of the runs; never-announced blocks judged before the orphan classification; long-chain family (peer chain longer than its block ring, empty syncer). Round 7: long-chain family with a park-and-retry syncer genesis period + 2 behind and any-order fetch completion.",
    design="§6 C15",
    note="Trusted: SimNet/fetch-server stubs mirroring saito-rust's network controller; handlers run to completion (event-granularity interleaving, not await-point interleaving). Runs in which a child is fetched before its parent fall into the orphan known-finding class and are reported under their own signatures. 16-bit fork-id collisions ignored.",
    technique="deterministic simulation: two-node simulated network + fetch server, seeded schedules and network/fetch faults, bounded-liveness convergence oracle"),
 
  "C08": dict(
    level="exploration",
-   text="Two seeded families through the real add_block. Work gate: one transaction set (fee classes x 8 routing-path shapes incl. forged, non-contiguous, self-hop, not ending at the creator) bundled at two timestamp offsets around the thresholds, each offered to a fresh replica; accepted => paths valid and independently computed u128 work >= parent burn fee / offset; acceptance monotone in the offset; no work needed from two heartbeats on. Payouts: routed fee-paying histories with three ticket patterns; every Fee-transaction output goes to the ticket solver, a hop recipient or a path-less sender of the blocks being paid, and the sum does not exceed the fees those blocks collected. Later additions: paths through the creator that end elsewhere; replica that joined at the parent; rounding-boundary runs (fee = integer part of burn fee / elapsed where the fraction is 0.6..0.95). Rounds 5-6: ticket-in-every-block pattern (difficulty rises); rival blocks whose golden ticket does not solve the parent's lottery (4 kinds) must be refused; a ticket solved by one key and relayed inside another key's golden-ticket transaction pays the solver.",
+   text="Two seeded families through the real add_block. Work gate: one transaction set (fee classes x 8 routing-path shapes incl. forged, non-contiguous, self-hop, not ending at the creator) bundled at two timestamp offsets around the thresholds, each offered to a fresh replica; accepted => paths valid and independently computed u128 work >= parent burn fee / offset; acceptance monotone in the offset; no work needed from two heartbeats on. Payouts: routed fee-paying histories with three ticket patterns; every Fee-transaction output goes to the ticket solver, a hop recipient or a path-less sender of the blocks being paid, and the sum does not exceed the fees those blocks collected. Later additions: paths through the creator that end elsewhere; replica that joined at the parent; rounding-boundary runs (fee = integer part of burn fee / elapsed where the fraction is 0.6..0.95). Rounds 5-6: ticket-in-every-block pattern (difficulty rises); rival blocks whose golden ticket does not solve the parent's lottery (4 kinds) must be refused; a ticket solved by one key and relayed inside another key's golden-ticket transaction pays the solver. Round 7: stake-typed fee-paying transactions and fee-paying golden-ticket transactions with every routing-path shape.",
    design="§6 C08",
    note="Trusted: oracle's work computation and eligibility rule (written from the property statement), signature verification primitive. The converse (sufficient work => accepted) is only counted, not demanded.",
    technique="deterministic simulation: seeded routing-path/timestamp-offset injection with independent work and payout-eligibility oracles"),
 
  "C06": dict(
    level="exploration",
-   text="Seeded histories; the block at a seeded position is edited (10 edits: reorder/replace/add/remove/duplicate transactions or change a payload under the unchanged signed header; re-sign with another key; change creator/timestamp/treasury without re-signing), the edited block goes to node A and the original to node B through the decode+generate path, then the rest of the history to both. Oracles: same hash + different ordered transaction list is never accepted; header edits change the hash or are rejected (and never accepted under a new hash without a valid creator signature); same tip hash on two nodes implies identical spendable sets. Later additions: receiving nodes synced / joined mid-chain / fresh (edited block #1); slip-less SPV stub insertion; all transactions removed; restart stage (edited block stored as a sibling, written to disk unvalidated, node restarted from its disk). Rounds 5-6: leaf-limit family (producer block whose merkle tree has exactly MAX_MERKLE_TREE_LEAVES leaves or one fewer, then a list edit that keeps the leaf total).",
+   text="Seeded histories; the block at a seeded position is edited (10 edits: reorder/replace/add/remove/duplicate transactions or change a payload under the unchanged signed header; re-sign with another key; change creator/timestamp/treasury without re-signing), the edited block goes to node A and the original to node B through the decode+generate path, then the rest of the history to both. Oracles: same hash + different ordered transaction list is never accepted; header edits change the hash or are rejected (and never accepted under a new hash without a valid creator signature); same tip hash on two nodes implies identical spendable sets. Later additions: receiving nodes synced / joined mid-chain / fresh (edited block #1); slip-less SPV stub insertion; all transactions removed; restart stage (edited block stored as a sibling, written to disk unvalidated, node restarted from its disk). Rounds 5-6: leaf-limit family (producer block whose merkle tree has exactly MAX_MERKLE_TREE_LEAVES leaves or one fewer, then a list edit that keeps the leaf total). Round 7: a quarter of the runs let the receivers run under the stated creator's key.",
    design="§6 C06",
    note="Trusted: edit catalogue and the comparison of ordered transaction lists; universe builder for the honest history.",
    technique="deterministic simulation: two-node history replay with post-signing block edits, same-hash/same-ledger oracle"),
 
  "C13": dict(
    level="exploration",
-   text="Seeded histories of 2-4 retention windows on a real producer (genesis period 3..8) with spent/unspent/dust outputs and three fee levels; for every accepted block past the first window its rebroadcast transactions are matched one-to-one against the reference ledger's unspent outputs of the block that just left the window (identity, owner, amount bounds, nothing foreign, nothing twice) and value conservation across the edge is checked in u128; outputs older than the window are then offered as inputs through the pool and inside a block. Later additions: NFT groups (created, rebroadcast as a group with both bound slips unchanged, or collected); a fork at an early height whose orphaned sibling was stored first.",
+   text="Seeded histories of 2-4 retention windows on a real producer (genesis period 3..8) with spent/unspent/dust outputs and three fee levels; for every accepted block past the first window its rebroadcast transactions are matched one-to-one against the reference ledger's unspent outputs of the block that just left the window (identity, owner, amount bounds, nothing foreign, nothing twice) and value conservation across the edge is checked in u128; outputs older than the window are then offered as inputs through the pool and inside a block. Later additions: NFT groups (created, rebroadcast as a group with both bound slips unchanged, or collected); a fork at an early height whose orphaned sibling was stored first. Round 7: the amount charged by a rebroadcast equals transaction size x the parent's average fee per byte; collected outputs do not cover that fee.",
    design="§6 C13",
    note="Trusted: reference ledger; header fields total_fees_atr/total_payout_atr are read from the accepted block. NFT bound triples and staking not generated; disk faults on the expiring block file not injected here.",
    technique="deterministic simulation: seeded window-wrapping histories + per-output rebroadcast ledger oracle, expired-input injection"),
 
  "C02": dict(
    level="exploration",
-   text="Seeded long histories on a real producer node (genesis period 3..10, up to 30/120 blocks, fee classes, 0-2 hop paths, four golden-ticket patterns, three issuance scales, rebroadcasts after the window wraps), one third with a competing fork built by a second producer and delivered to an observer (reorganisation across payouts/rebroadcasts), one quarter with a transaction whose output sum wraps 2^64 through pool or block. After every accepted block, on every node: conservation equation in u128, node's in-window value == reference replay, no accepted user transaction with outputs > inputs. Later additions: NFT (Bound-Normal-Bound) creation in about one block of five; hostile value-bearing golden ticket and NFT overspend through pool and block; optional tickets stop at difficulty 10 (the harness miner pays 2^difficulty). Rounds 5-6: hostile spend of the smallest output of block tip - genesis period (the one the next block's rebroadcast pass collects).",
+   text="Seeded long histories on a real producer node (genesis period 3..10, up to 30/120 blocks, fee classes, 0-2 hop paths, four golden-ticket patterns, three issuance scales, rebroadcasts after the window wraps), one third with a competing fork built by a second producer and delivered to an observer (reorganisation across payouts/rebroadcasts), one quarter with a transaction whose output sum wraps 2^64 through pool or block. After every accepted block, on every node: conservation equation in u128, node's in-window value == reference replay, no accepted user transaction with outputs > inputs. Later additions: NFT (Bound-Normal-Bound) creation in about one block of five; hostile value-bearing golden ticket and NFT overspend through pool and block; optional tickets stop at difficulty 10 (the harness miner pays 2^difficulty). Rounds 5-6: hostile spend of the smallest output of block tip - genesis period (the one the next block's rebroadcast pass collects). Round 7: the window-edge spend also under the staking type.",
    design="§6 C02",
    note="Trusted: reference ledger and u128 arithmetic of the oracle. Staking off; timestamps >= 2 heartbeats apart. Fork depth < genesis period (deeper forks are the orphan case of C03/C05).",
    technique="deterministic simulation: seeded long-history generation incl. reorgs + u128 conservation oracle, adversarial amount injection"),
 
  "C01": dict(
    level="exploration",
-   text="Seeded search over honest histories (fresh / after a reorganisation, 2..10/25 blocks) x a 15-entry catalogue of hostile transaction edits x entry path (pool, block as next tip, block on a side fork that becomes the longer candidate) x transaction position. Oracles: hostile tx absent from the pool, hostile block never on the longest chain, and an independent scan of the node's longest chain against the reference ledger (every value-carrying input spendable at that point and owned by the signer). The honest twin must be accepted or the run does not count. Later additions: ATR-typed transaction with plain outputs, double spend across transactions behind a zero-amount input, nodes with prune depth 1/2 and side forks of 2-4 blocks, outputs that only existed on the abandoned fork offered as inputs. Rounds 5-6: fourth entry path (hostile block on top of an honest stored sibling, i.e. the second block of the candidate chain); the spendable set is compared across every rejected block.",
+   text="Seeded search over honest histories (fresh / after a reorganisation, 2..10/25 blocks) x a 15-entry catalogue of hostile transaction edits x entry path (pool, block as next tip, block on a side fork that becomes the longer candidate) x transaction position. Oracles: hostile tx absent from the pool, hostile block never on the longest chain, and an independent scan of the node's longest chain against the reference ledger (every value-carrying input spendable at that point and owned by the signer). The honest twin must be accepted or the run does not count. Later additions: ATR-typed transaction with plain outputs, double spend across transactions behind a zero-amount input, nodes with prune depth 1/2 and side forks of 2-4 blocks, outputs that only existed on the abandoned fork offered as inputs. Rounds 5-6: fourth entry path (hostile block on top of an honest stored sibling, i.e. the second block of the candidate chain); the spendable set is compared across every rejected block. Round 7: histories of depth 0 and 1 (hostile block #2).",
    design="§6 C01",
    note="Trusted: reference ledger, edit catalogue, universe builder. Genesis period >> depth here (expired inputs: C13); staking off.",
    technique="deterministic simulation: seeded history x adversarial-edit injection through pool and block paths, reference-ledger oracle"),
